@@ -21,10 +21,20 @@
 // mutant: a decryption that must be rejected; probe: CipherMarshal / CipherUnmarshal on damaged input, where
 // the codec only sees the syntax - the expectation is the predicate's business).  The case and observation
 // files do not depend on it.
+// Consumer legs (the consumers named by the C02 anchors):
+//   T id d body               gmtls eccKeyAgreementGM.processClientKeyExchange(enc certificate with key(d), ClientKeyExchange body
+//                             = 2-byte length || ASN.1 ciphertext), through the hook gmtls.VerifECCProcessClientKeyExchange
+//                             -> ok <premaster-hex> | err
+//   Q id d mode ek content p7 x509 PKCS#7 enveloped data for a recipient certificate of key(d): ParsePKCS7(p7).DecryptSM2(cert, key(d), mode);
+//                             ek = the SM2-wrapped content key inside p7 (given separately for the model / predicate), content = the
+//                             enveloped plaintext  -> ok <content-hex> | err
 package main
 
 import (
 	"bufio"
+	"bytes"
+	crand "crypto/rand"
+	"crypto/x509/pkix"
 	"fmt"
 	"io"
 	"math/big"
@@ -34,8 +44,10 @@ import (
 	"strings"
 	"time"
 
+	"github.com/tjfoc/gmsm/gmtls"
 	"github.com/tjfoc/gmsm/sm2"
 	"github.com/tjfoc/gmsm/sm3"
+	"github.com/tjfoc/gmsm/x509"
 	"verifharness/internal/hx"
 )
 
@@ -161,6 +173,27 @@ func runCase(line string) string {
 				return "err"
 			}
 			return "ok " + hx.Hex(der)
+		case "T":
+			need(f, 4)
+			enc := &gmtls.Certificate{PrivateKey: mkPriv(unz(f[2]))}
+			pm, err := gmtls.VerifECCProcessClientKeyExchange(enc, hx.UnHex(f[3]))
+			if err != nil {
+				return "err"
+			}
+			return "ok " + hx.Hex(pm)
+		case "Q":
+			need(f, 7)
+			d := unz(f[2])
+			mode, _ := strconv.Atoi(f[3])
+			p7, err := x509.ParsePKCS7(hx.UnHex(f[6]))
+			if err != nil {
+				return "err"
+			}
+			pt, err := p7.DecryptSM2(recipientCert(d), mkPriv(d), mode)
+			if err != nil {
+				return "err"
+			}
+			return "ok " + hx.Hex(pt)
 		case "U":
 			need(f, 3)
 			raw, err := sm2.CipherUnmarshal(hx.UnHex(f[2]))
@@ -844,6 +877,155 @@ func (g *gctx) msgOf(n int) []byte {
 	return g.r.Bytes(n)
 }
 
+
+// recipient certificate of the PKCS#7 leg: one fixed template (issuer and serial identify the recipient), self-signed
+// by key(d); its signature bytes are random but play no role
+var certCache = map[string]*x509.Certificate{}
+
+func recipientCert(d *big.Int) *x509.Certificate {
+	if c, ok := certCache[d.String()]; ok {
+		return c
+	}
+	k := mkPriv(d)
+	t := &x509.Certificate{SerialNumber: big.NewInt(20260926),
+		Subject:   pkix.Name{CommonName: "c02 pkcs7 recipient", Organization: []string{"verif"}},
+		NotBefore: time.Unix(1700000000, 0), NotAfter: time.Unix(2000000000, 0), SignatureAlgorithm: x509.SM2WithSM3,
+		KeyUsage: x509.KeyUsageDigitalSignature | x509.KeyUsageKeyEncipherment, BasicConstraintsValid: true}
+	der, err := x509.CreateCertificate(t, t, &k.PublicKey, k)
+	if err != nil {
+		panic(err)
+	}
+	c, err := x509.ParseCertificate(der)
+	if err != nil {
+		panic(err)
+	}
+	certCache[d.String()] = c
+	return c
+}
+
+// deterministic replacement of crypto/rand.Reader while the generator builds PKCS#7 envelopes
+type rngReader struct{ r *hx.Rng }
+
+func (x rngReader) Read(p []byte) (int, error) { copy(p, x.r.Bytes(len(p))); return len(p), nil }
+
+func ckxBody(der []byte) []byte { return cat([]byte{byte(len(der) >> 8), byte(len(der))}, der) }
+
+func (g *gctx) caseT(kind, what string, d *big.Int, body []byte) {
+	g.emit(kind, what, fmt.Sprintf("T %d %s %s", g.next(), zs(d), hx.Hex(body)))
+}
+
+// consumer leg 1: the TLS ECC key exchange (48-byte premaster secret encrypted to the server's encryption key)
+func (g *gctx) genConsumersTLS() {
+	nk := 3
+	if g.thorough {
+		nk = 12
+	}
+	for i := 0; i < nk; i++ {
+		k := g.keys[(3+i)%len(g.keys)]
+		other := g.keys[(4+i)%len(g.keys)]
+		for _, n := range []int{48, 47, 49, 1, 96} {
+			pm := g.r.Bytes(n)
+			raw, err := sm2.Encrypt(mkPub(k.x, k.y), pm, &rdr{rem: g.r.Bytes(40)}, 0)
+			if err != nil {
+				panic(err)
+			}
+			marshal := func(r []byte) []byte {
+				der, err := sm2.CipherMarshal(r)
+				if err != nil {
+					panic(err)
+				}
+				return der
+			}
+			w := fmt.Sprintf("key %s, %d-byte secret", k.name, n)
+			g.caseT("honest", "ClientKeyExchange, "+w, k.d, ckxBody(marshal(raw)))
+			if n != 48 {
+				continue
+			}
+			flip := func(pos int, bit byte) []byte { r := clone(raw); r[pos] ^= bit; return r }
+			for _, pos := range []int{65, 65 + g.r.Intn(32), 96} { // C3
+				g.caseT("mutant", fmt.Sprintf("%s, C3 byte %d changed", w, pos-65), k.d, ckxBody(marshal(flip(pos, 1<<uint(g.r.Intn(8))))))
+			}
+			for _, pos := range []int{97, 97 + g.r.Intn(48), 144} { // C2
+				g.caseT("mutant", fmt.Sprintf("%s, C2 byte %d changed", w, pos-97), k.d, ckxBody(marshal(flip(pos, 1<<uint(g.r.Intn(8))))))
+			}
+			g.caseT("mutant", w+", C1.x bit flipped", k.d, ckxBody(marshal(flip(1+g.r.Intn(32), 1))))
+			g.caseT("mutant", w+", C1.y bit flipped", k.d, ckxBody(marshal(flip(33+g.r.Intn(32), 1))))
+			g.caseT("mutant", w+", decrypted with another key", other.d, ckxBody(marshal(raw)))
+			g.caseT("mutant", w+", C2 one byte shorter", k.d, ckxBody(marshal(raw[:len(raw)-1])))
+			g.caseT("mutant", w+", C2 one byte longer", k.d, ckxBody(marshal(cat(raw, []byte{0x5a}))))
+			zero := clone(raw)
+			for j := 65; j < 97; j++ {
+				zero[j] = 0
+			}
+			g.caseT("mutant", w+", C3 all zero", k.d, ckxBody(marshal(zero)))
+			der := marshal(raw)
+			body := ckxBody(der)
+			b1 := clone(body)
+			b1[1]++
+			g.caseT("mutant", w+", length prefix + 1", k.d, b1)
+			g.caseT("mutant", w+", body truncated by one byte (prefix kept)", k.d, body[:len(body)-1])
+			g.caseT("mutant", w+", DER truncated by one byte (prefix adjusted)", k.d, ckxBody(der[:len(der)-1]))
+			g.caseT("mutant", w+", empty body", k.d, []byte{})
+			g.caseT("mutant", w+", one-byte body", k.d, []byte{0})
+			g.caseT("mutant", w+", zero-length ciphertext", k.d, []byte{0, 0})
+		}
+	}
+}
+
+// consumer leg 2: PKCS#7 enveloped data, content key wrapped with SM2
+func (g *gctx) genConsumersPKCS7() {
+	saveAlg, saveRand := x509.ContentEncryptionAlgorithm, crand.Reader
+	x509.ContentEncryptionAlgorithm = x509.EncryptionAlgorithmAES128GCM
+	crand.Reader = rngReader{g.r}
+	defer func() { x509.ContentEncryptionAlgorithm, crand.Reader = saveAlg, saveRand }()
+	nk := 2
+	if g.thorough {
+		nk = 8
+	}
+	for i := 0; i < nk; i++ {
+		k := g.keys[(3+i)%len(g.keys)]
+		other := g.keys[(5+i)%len(g.keys)]
+		for mode := 0; mode <= 1; mode++ {
+			content := g.r.Bytes(1 + g.r.Intn(100))
+			p7, err := x509.PKCS7EncryptSM2(content, []*x509.Certificate{recipientCert(k.d)}, mode)
+			if err != nil {
+				panic(err)
+			}
+			// the wrapped 16-byte content key: OCTET STRING of 97+16 bytes starting with the 04 prefix
+			at := bytes.Index(p7, []byte{0x04, 0x71, 0x04})
+			if at < 0 || at+2+113 > len(p7) {
+				panic("c02: wrapped key not found in the PKCS#7 envelope")
+			}
+			ek := p7[at+2 : at+2+113]
+			if _, err := sm2.Decrypt(mkPriv(k.d), ek, mode); err != nil {
+				panic("c02: located bytes are not the wrapped key")
+			}
+			emit := func(kind, what string, d *big.Int, mut func(e []byte)) {
+				q := clone(p7)
+				e := q[at+2 : at+2+113]
+				if mut != nil {
+					mut(e)
+				}
+				g.emit(kind, what, fmt.Sprintf("Q %d %s %d %s %s %s", g.next(), zs(d), mode, hx.Hex(e), hx.Hex(content), hx.Hex(q)))
+			}
+			w := fmt.Sprintf("PKCS#7 envelope, key %s, mode %d", k.name, mode)
+			emit("honest", w, k.d, nil)
+			c3, c2 := 65, 97
+			if mode == 1 {
+				c3, c2 = 65+16, 65
+			}
+			emit("mutant", w+", C3 first byte changed", k.d, func(e []byte) { e[c3] ^= 0x01 })
+			emit("mutant", w+", C3 last byte changed", k.d, func(e []byte) { e[c3+31] ^= 0x80 })
+			emit("mutant", w+", C2 first byte changed", k.d, func(e []byte) { e[c2] ^= 0x01 })
+			emit("mutant", w+", C2 last byte changed", k.d, func(e []byte) { e[c2+15] ^= 0x40 })
+			emit("mutant", w+", C1.x bit flipped", k.d, func(e []byte) { e[1+g.r.Intn(32)] ^= 0x02 })
+			emit("mutant", w+", C1.y bit flipped", k.d, func(e []byte) { e[33+g.r.Intn(32)] ^= 0x02 })
+			emit("mutant", w+", prefix byte 06", k.d, func(e []byte) { e[0] = 6 })
+			emit("mutant", w+", another key", other.d, nil)
+		}
+	}
+}
+
 func gen(seed uint64, tier string, o *hx.Out) {
 	g := &gctx{r: hx.NewRng(seed), o: o, thorough: tier == "thorough"}
 	if p := os.Getenv("C02_DESC"); p != "" {
@@ -1065,6 +1247,9 @@ func gen(seed uint64, tier string, o *hx.Out) {
 			g.caseM("probe", fmt.Sprintf("CipherMarshal of a ciphertext whose first byte is %02x", b), raw)
 		}
 	}
+	// ---- I. the consumers named by the anchors
+	g.genConsumersTLS()
+	g.genConsumersPKCS7()
 }
 
 func main() {
